@@ -471,6 +471,9 @@ def check(prog, rep, tier):
                         and (outer_field(e.recv) == "_buckets" or e.recv == bk or (e.recv[0] == "sub" and e.recv[1] == bk)) and e.loops]
                 stored = [e for e in apps if e.args and (direct_input(e.args[0], LABELS) or (e.args[0][0] == "new"))]
                 restored = restored or bool(stored)
+                # ... or the bucket list is built in one expression: [entry-from-input for each bucket slice]
+                if bk is not None and bk[0] == "comp" and bk[1] == "list" and direct_input(bk[2], LABELS):
+                    restored = True
                 # the record a bin is decoded with is the record it is written with: the writer emits array('I') words
                 # (fingerprint, and for counting bins the count), so the reader must take each of them as one 32-bit unsigned
                 wcells = [x for x in em if x[0] == "cells"]
@@ -542,7 +545,8 @@ def check(prog, rep, tier):
             f = K.find_method(mn)
             if f is None or f.kind != "classmethod":
                 continue
-            ps = [p for p in paths(prog, cname, f) if p.exit[0] == "return"]
+            # (a subclass may delegate to the inherited constructor of the same name: look through it)
+            ps = [p for p in paths(prog, cname, f, force_inline=(mn,)) if p.exit[0] == "return"]
             if not ps:
                 continue  # refuses (on-disk frombytes)
             kinds = {p.exit[1][1] if p.exit[1][0] == "new" else nshow(p.exit[1]) for p in ps}
